@@ -71,6 +71,13 @@ func (f *flakySeeker) Read(p []byte) (int, error) {
 		}
 		f.pos += n
 		f.tripped = true
+		// the identity of the error must not matter: a sentinel, or what a truncated stream hands back
+		if f.failAt%3 == 1 {
+			return n, fmt.Errorf("read chunk: stream closed: %w", io.EOF)
+		}
+		if f.failAt%3 == 2 {
+			return n, io.ErrUnexpectedEOF
+		}
 		return n, errFlaky
 	}
 	n := copy(p, f.data[f.pos:end])
@@ -515,7 +522,7 @@ func (sp *MsgSpec) Build() (*mail.Msg, []string, error) {
 				return nil, nil, derr
 			}
 			tempDirs = append(tempDirs, dir)
-			base := "file" + filepath.Ext(f.Name)
+			base := "file" + safeExt(f.Name)
 			if werr := os.WriteFile(filepath.Join(dir, base), f.Content, 0o600); werr != nil {
 				return nil, nil, werr
 			}
@@ -532,6 +539,58 @@ func (sp *MsgSpec) Build() (*mail.Msg, []string, error) {
 				} else {
 					err = m.EmbedFromIOFS(base, os.DirFS(dir), fo...)
 				}
+			}
+		case "fs-dir", "fs-gone":
+			// a path that exists when the file is attached but cannot be read when the message is rendered:
+			// it is a directory / it has been removed. The producer fails before it emits anything.
+			dir, derr := os.MkdirTemp("", "gmverif-files-")
+			if derr != nil {
+				return nil, nil, derr
+			}
+			tempDirs = append(tempDirs, dir)
+			path := filepath.Join(dir, "file"+safeExt(f.Name))
+			if f.Source == "fs-dir" {
+				if merr := os.Mkdir(path, 0o700); merr != nil {
+					return nil, nil, merr
+				}
+			} else if werr := os.WriteFile(path, f.Content, 0o600); werr != nil {
+				return nil, nil, werr
+			}
+			fo = append(fo, mail.WithFileName(f.Name))
+			if f.Attach {
+				m.AttachFile(path, fo...)
+			} else {
+				m.EmbedFile(path, fo...)
+			}
+			if f.Source == "fs-gone" {
+				_ = os.Remove(path)
+			}
+			f.Content = nil
+			f.Fails = true
+			tbe := mime.TypeByExtension(filepath.Ext(f.Name))
+			modelEnc := f.Enc
+			if modelEnc == "quoted-printable" {
+				modelEnc = ""
+			}
+			for _, set := range fieldsLater {
+				if f.Attach {
+					l := m.GetAttachments()
+					set(l[len(l)-1])
+				} else {
+					l := m.GetEmbeds()
+					set(l[len(l)-1])
+				}
+			}
+			ops = append(ops, "file", encBool(f.Attach), encS(f.Name), encS(f.CType), encS(f.Desc), encS(modelEnc), cid, encS(tbe), encB(nil), encBool(true))
+			continue
+		case "partly-read":
+			// a reader the caller has already consumed a prefix of: the file is the rest, in every render
+			rd := bytes.NewReader(append([]byte("RECORD-HEADER-ALREADY-CONSUMED:"), f.Content...))
+			_, _ = rd.Read(make([]byte, len("RECORD-HEADER-ALREADY-CONSUMED:")))
+			if f.Attach {
+				err = m.AttachReader(f.Name, rd, fo...)
+			} else {
+				err = m.EmbedReader(f.Name, rd, fo...)
 			}
 		case "embedfs":
 			// a file compiled into the program (embed.FS); its content is what it is
@@ -904,7 +963,10 @@ func genSpec(r *Rng, o genOpts) *MsgSpec {
 			p.Enc = sp(encs[r.Intn(len(encs))])
 		}
 		if r.Chance(20) {
-			if r.Chance(10) {
+			if r.Chance(12) {
+				// printable text beyond the 998 character line limit with a very long word in it
+				p.Desc = []string{"note ", "note X-Injected:yes;", ""}[r.Intn(3)] + strings.Repeat("a", 960+r.Intn(80)) + " end of the note"
+			} else if r.Chance(10) {
 				p.Desc = genFoldEdge(r)
 			} else if o.textHeavy || r.Chance(50) {
 				p.Desc = genText(r, 6)
@@ -938,7 +1000,9 @@ func genSpec(r *Rng, o genOpts) *MsgSpec {
 			f.CType = []string{"application/x-custom", "text/csv", "image/jpeg"}[r.Intn(3)]
 		}
 		if r.Chance(25) {
-			if o.textHeavy || r.Chance(50) {
+			if r.Chance(10) {
+				f.Desc = []string{"file ", "file X-Injected:yes;", ""}[r.Intn(3)] + strings.Repeat("b", 960+r.Intn(80)) + " end of the description"
+			} else if o.textHeavy || r.Chance(50) {
 				f.Desc = genText(r, 6)
 			} else {
 				f.Desc = "A file description"
@@ -971,7 +1035,7 @@ func genSpec(r *Rng, o genOpts) *MsgSpec {
 			if f.Fails || !r.Chance(35) {
 				continue
 			}
-			f.Source = []string{"seeker", "fs", "iofs", "tpl", "htmltpl", "embedfs"}[r.Intn(6)]
+			f.Source = []string{"seeker", "fs", "iofs", "tpl", "htmltpl", "embedfs", "partly-read", "partly-read"}[r.Intn(8)]
 			if f.Source == "tpl" || f.Source == "htmltpl" {
 				// templates carry text: valid UTF-8 free of template actions
 				f.Content = []byte(strings.ToValidUTF8(strings.ReplaceAll(string(f.Content), "{{", "{ {"), "?"))
@@ -1001,6 +1065,22 @@ var embeddedFS embed.FS
 
 //go:embed embedded/asset.txt
 var embeddedAsset []byte
+
+// safeExt: the extension of name if it can be part of a path on disk, else ".dat" (the name the message
+// carries is set with WithFileName; the name on disk does not matter)
+func safeExt(name string) string {
+	ext := filepath.Ext(name)
+	for i := 0; i < len(ext); i++ {
+		ch := ext[i]
+		if !(ch == '.' || ch >= '0' && ch <= '9' || ch >= 'a' && ch <= 'z' || ch >= 'A' && ch <= 'Z') {
+			return ".dat"
+		}
+	}
+	if len(ext) > 20 {
+		return ".dat"
+	}
+	return ext
+}
 
 // expandedGen: the generic header operations with the convenience setters replaced by what they are
 // documented to set (for the oracles; Disposition-Notification-To carries no value to compare)
